@@ -32,6 +32,8 @@ func scenarios(tier string) []vlib.Scenario {
 	var out []vlib.Scenario
 	for _, m := range []string{"off", "pm", "ct"} {
 		out = append(out, vlib.Scenario{Name: params{m, "exclusive", 2, 2}.name(), P: params{m, "exclusive", 2, 2}})
+		// the gorilla back-end: NextWriter does not wait, it closes the writer that is still open
+		out = append(out, vlib.Scenario{Name: params{m, "gorilla", 2, 2}.name(), P: params{m, "gorilla", 2, 2}})
 	}
 	if tier == "thorough" {
 		for _, m := range []string{"off", "pm", "ct"} {
@@ -54,6 +56,8 @@ func config(sc vlib.Scenario, tier string) vsched.Config {
 type frame struct{ data []byte }
 
 type conn struct {
+	gorilla    bool
+	cur        *msgWriter
 	name       string
 	peer       *conn
 	in         []frame
@@ -88,6 +92,18 @@ func (w *msgWriter) Close() error {
 }
 
 func (c *conn) Writer(ctx context.Context, t websocket.MessageType) (io.WriteCloser, error) {
+	if c.gorilla {
+		// gorilla/websocket NextWriter: "closes the previous writer if the application has not already done so"
+		vsched.Yield("h:conn-next-writer")
+		if c.closed {
+			return nil, transport.ErrAlreadyClosed
+		}
+		if c.cur != nil && !c.cur.closed {
+			c.cur.Close()
+		}
+		c.cur = &msgWriter{c: c}
+		return c.cur, nil
+	}
 	vsched.WaitUntil("h:conn-writer:"+c.name, func() bool { return !c.writerOpen || c.closed })
 	if c.closed {
 		return nil, transport.ErrAlreadyClosed
@@ -127,7 +143,7 @@ func payload(w, i int) []byte {
 }
 
 func (w *world) main() {
-	a, b := &conn{name: "a"}, &conn{name: "b"}
+	a, b := &conn{name: "a", gorilla: w.p.Contract == "gorilla"}, &conn{name: "b", gorilla: w.p.Contract == "gorilla"}
 	a.peer, b.peer = b, a
 	np := websocket.NegotiationParams{}
 	lvl, bits := 6, 13
@@ -184,21 +200,21 @@ func run(sc vlib.Scenario, cfg vsched.Config) (*vsched.Result, vlib.Verdict) {
 		return res, v
 	}
 	if res.Outcome != vsched.Completed {
-		v.Fail("C13.concurrent.blocked", w.p.Mode, "writers/reader did not finish: %v (read %d messages, read error %v)", res.Outcome, len(w.got), w.rerr)
+		v.Fail("C13.concurrent.blocked", w.p.Mode+"/"+w.p.Contract, "writers/reader did not finish: %v (read %d messages, read error %v)", res.Outcome, len(w.got), w.rerr)
 		return res, v
 	}
 	if w.rerr != nil {
-		v.Fail("C13.concurrent.read-error", w.p.Mode, "peer Read failed after %d messages: %v", len(w.got), w.rerr)
+		v.Fail("C13.concurrent.read-error", w.p.Mode+"/"+w.p.Contract, "peer Read failed after %d messages: %v", len(w.got), w.rerr)
 		return res, v
 	}
 	for _, e := range w.werr {
-		v.Fail("C13.concurrent.write-error", w.p.Mode, "Write failed: %v", e)
+		v.Fail("C13.concurrent.write-error", w.p.Mode+"/"+w.p.Contract, "Write failed: %v", e)
 	}
 	seen := map[string]int{}
 	for _, m := range w.got {
 		seen[m]++
 		if !w.sent[m] {
-			v.Fail("C13.concurrent.bytes", w.p.Mode+"/corrupted-or-mixed", "peer read a message nobody wrote (%d bytes, starts %q)", len(m), m[:min(len(m), 40)])
+			v.Fail("C13.concurrent.bytes", w.p.Mode+"/"+w.p.Contract+"/corrupted-or-mixed", "peer read a message nobody wrote (%d bytes, starts %q)", len(m), m[:min(len(m), 40)])
 		}
 	}
 	for m := range w.sent {
@@ -220,7 +236,11 @@ func run(sc vlib.Scenario, cfg vsched.Config) (*vsched.Result, vlib.Verdict) {
 	}
 	var o []string
 	for _, m := range w.got {
-		o = append(o, m[7:8]+m[13:14])
+		if len(m) >= 14 && w.sent[m] {
+			o = append(o, m[7:8]+m[13:14])
+		} else {
+			o = append(o, fmt.Sprintf("?%d", len(m)))
+		}
 	}
 	_ = sort.Strings
 	v.Outcome = strings.Join(o, ",")
@@ -233,7 +253,7 @@ func main() {
 		Scenarios: scenarios,
 		Config:    config,
 		Run:       run,
-		Rule:      "mode S: two (thorough: three) writer threads x two messages each on one WebSocket transport over an in-memory websocket.Conn with the exclusive-writer contract of the coder/nhooyr back-ends, compression off / per-message / context takeover (level 6, 8 KiB window, overlapping contents of 1.5 KiB so that the preset dictionary is in use); deviations <= 2 (thorough 3) in transport/websocket and the Conn; oracle: the peer transport reads every message exactly once, byte-exact, in per-writer order",
-		Assumptions: []string{"Writer() of the in-memory Conn blocks while another message writer is open (documented contract of coder/nhooyr); gorilla's 'NextWriter closes the previous writer' contract is not modelled"},
+		Rule:      "mode S: two (thorough: three) writer threads x two messages each on one WebSocket transport over an in-memory websocket.Conn with the exclusive-writer contract of the coder/nhooyr back-ends and with the close-the-previous-writer contract of the gorilla back-end, compression off / per-message / context takeover (level 6, 8 KiB window, overlapping contents of 1.5 KiB so that the preset dictionary is in use); deviations <= 2 (thorough 3) in transport/websocket and the Conn; oracle: the peer transport reads every message exactly once, byte-exact, in per-writer order",
+		Assumptions: []string{"two in-memory Conn contracts: 'exclusive' - Writer() blocks while another message writer is open (coder/nhooyr); 'gorilla' - NextWriter closes the writer that is still open and later writes to it fail (gorilla/websocket, which additionally panics when it happens to notice the concurrent write)"},
 	})
 }
